@@ -243,3 +243,33 @@ def _import_panicking_ops():
     if bad:
         return False, "import-panicking-ops: panicking operator outside the reviewed set: " + "; ".join(bad[:6]), found
     return True, f"{found} panicking operators in xlsx/src/import, all under contract, length-guarded or reviewed", found
+
+
+@scan("export-panicking-ops")
+def _export_panicking_ops():
+    """C24: the same closed-world review for xlsx/src/export: every operator that can panic is under contract (unit xmlescape), an index into a fixed-size
+    array / a length-guarded slice, or on the reviewed list below; a new one makes the run UNDECIDED."""
+    E, M, W = "escape.rs", "mod.rs", "worksheets.rs"
+    reviewed = {
+        (E, "starts_xlsx_escape_pattern"): "bytes[0..=6] after `bytes.len() >= 7` (short-circuit &&)",
+        (E, "escape_xml"): "byte offsets at char boundaries < len: the loop is under contract in unit xmlescape (shim_char_at / shim_starts_pattern)",
+        (M, "save_xlsx_to_writer"): "worksheet(i).unwrap() / parsed_formulas[i] with i from enumerate() over the worksheets (one parsed-formula table per sheet: model invariant); "
+                                    "number_to_column(dimension.min/max_column).unwrap(): the dimension is computed from the keys of sheet_data, which are grid columns (C27)",
+        (W, "get_worksheet_xml"): "number_to_column(column key).unwrap() and parsed_formulas[*f] (cell keys are grid columns, formula indices come from the same table: model "
+                                  "invariants); range[k] indexes a [i32; 4]; panic!(\"Model needs to be evaluated before saving!\") is REACHABLE when evaluation is paused — an "
+                                  "upstream TODO, listed as an open defect in DESIGN.md",
+    }
+    found, bad = 0, []
+    for rel in rs_files("xlsx/src/export", skip_tests=True):
+        src, m0 = code_lines(rel)
+        m = _strip_test_mods(m0)
+        base = os.path.basename(rel)
+        for mm in _PANICKING.finditer(m):
+            found += 1
+            fn = enclosing_fn(m, mm.start())
+            if (base, fn) not in reviewed:
+                ln = src.count("\n", 0, mm.start()) + 1
+                bad.append(f"{rel}:{ln} in {fn}: {src.split(chr(10))[ln - 1].strip()[:60]}")
+    if bad:
+        return False, "export-panicking-ops: panicking operator in a function outside the reviewed set: " + "; ".join(bad[:6]), found
+    return True, f"{found} panicking operators in xlsx/src/export, all in the 4 reviewed functions", found
